@@ -202,10 +202,13 @@ def Conn.readAll : Conn → List Bytes → R Conn
     | .error e => .error e
     | .ok c' => c'.readAll ss
 
-/-- what ends up in `helloInfos` after the connection delivered `segs` -/
-def recorded (segs : List Bytes) : R (Option Info) :=
-  match ({} : Conn).readAll segs with
+/-- the `helloInfos` entry after a connection in state `c` delivered `segs` -/
+def recordedFrom (c : Conn) (segs : List Bytes) : R (Option Info) :=
+  match c.readAll segs with
   | .error e => .error e
   | .ok c => .ok c.recorded
+
+/-- what ends up in `helloInfos` after a fresh connection delivered `segs` -/
+def recorded (segs : List Bytes) : R (Option Info) := recordedFrom {} segs
 
 end Casket.Hello
